@@ -265,6 +265,25 @@ func runCheck(prop, tier string, rebaseline bool) int {
 			run.Trusted[k] = m.Assume
 		}
 	}
+	if !rebaseline {
+		// stage-1 counterexamples over strings: run the real function on the model's inputs
+		for _, r := range run.Results {
+			if r.OK || r.Status != "sat" || strings.HasPrefix(r.Name, "gen[") {
+				continue
+			}
+			fn := r.Name
+			if i := strings.Index(fn, "/"); i >= 0 {
+				fn = fn[:i]
+			}
+			if ok, report := replayStrings(repo, fn, r.Output, r.File); report != "" {
+				if ok {
+					r.Detail += "\nREPLAYED: the real function violates the clause (failing input listed below: the solver model or an input derived from the constants of the failed query)\n" + report
+				} else {
+					r.Detail += "\nreplay attempted, not reproduced:\n" + report
+				}
+			}
+		}
+	}
 	if s2 != nil && !rebaseline {
 		replayStage2(run, s2)
 		if os.Getenv("GOVC_REPLAY_ALL") != "" {
